@@ -22,7 +22,7 @@ def applyPhase (m : Model) (name : String) (working autoFlag : Bool) (rule : Tas
   | "pert" => some { s with live := pert m s.time s.live }
   | "absence" => some { s with live := absenceSet m s.time working s.live }
   | "allocate" => some { s with live := if working then allocate m s.logs rule s.live else s.live }
-  | "working" => some { s with live := chkWorking m s.live }
+  | "working" => some { s with live := if working || autoFlag then chkWorking m s.live else s.live }
   | "cost" => some { s with logs := cost m working s.live s.logs }
   | "perform" => some { s with live := perform m working autoFlag s.live }
   | "record" => some { s with logs := record m working s.live s.logs }
